@@ -314,14 +314,19 @@ Print Assumptions C03_reject_direction_refuted_chunk_size_cr_boundary.
                        parser's CR skipping looks at the read boundary: (a) the next read skips one more
                        CR; (b) the CR after the last-chunk line is skipped only within the same read.
                        In the model the two states are RChunked (RDataEnd true) / RChunked RTrail0.
-     rboundaries_clean rclean_st at every read boundary that is followed by a read
+     rresume_st s y    rclean_st s, or the bytes y that follow the boundary are read the same way as without
+                       it: y is empty, or in state (a) y does not start with CR, in state (b) y does not
+                       start with CR or starts with a line made of CRs only (so "0 CRLF" | "CRLF" is fine)
+     rboundaries_safe  rresume_st at every read boundary followed by a read, y = the rest of the stream
+     rboundaries_clean rclean_st at every such boundary (implies rboundaries_safe)
      robs, rprepend    as obs / prepend above
 
    Summary.  The unrestricted ACCEPT-direction statements are FALSE of the faithful model
    (C03_resp_split_accept_refuted_*, C03_resp_seg_accept_refuted: both witnesses replayed on the
-   implementation, known findings C03-lax-double-cr and C03-lax-cr-after-last-chunk).  With clean read
-   boundaries they hold in full, for all configurations, states and streams (C03_resp_*_partial): same
-   final state, messages, fields, body bytes, chunk ends, eof / exception marks, unconsumed bytes.
+   implementation, known findings C03-lax-double-cr and C03-lax-cr-after-last-chunk).  With safe read
+   boundaries (rresume_st: everything except exactly those two finding families) they hold in full, for
+   all configurations, states and streams (C03_resp_*_partial): same final state, messages, fields,
+   body bytes, chunk ends, eof / exception marks, unconsumed bytes.
    REJECT direction: additionally refuted by the CR/LF boundary at a line limit. *)
 From AV Require Import Lib.Utf8Decode Generated.HttpRespGen Model.HttpResp
   Proofs.HttpRespBase Proofs.HttpRespChunk Proofs.HttpRespSeg Proofs.HttpRespLimits Proofs.HttpRespEx.
@@ -421,11 +426,11 @@ Example C03_resp_split_witnesses :
 Proof. exact (conj witnesses_unclean cd_split_vs_one). Qed.
 Print Assumptions C03_resp_split_witnesses.
 
-(* what holds: with a clean boundary, the accept direction in full *)
+(* what holds: with a safe boundary, the accept direction in full *)
 Theorem C03_resp_split_accept_partial : forall cfg s a b acc s1 acc1 lo1 s2 acc2 lo2,
   rwf s ->
   rfeed cfg s a acc = (s1, acc1, OOk lo1) ->
-  rclean_st s1 = true ->
+  rresume_st s1 b = true ->
   rfeed cfg s1 b acc1 = (s2, acc2, OOk lo2) ->
   rfeed cfg s (a ++ b) acc = (s2, acc2, OOk (lo1 ++ lo2)).
 Proof. exact rfeed_split_accept. Qed.
@@ -435,7 +440,7 @@ Print Assumptions C03_resp_split_accept_partial.
 Theorem C03_resp_split_partial : forall cfg s a b acc s1 acc1 lo1,
   rwf s ->
   rfeed cfg s a acc = (s1, acc1, OOk lo1) ->
-  rtail_ok (c_lim cfg) s1 = true -> rclean_st s1 = true ->
+  rtail_ok (c_lim cfg) s1 = true -> rresume_st s1 b = true ->
   robs (rfeed cfg s (a ++ b) acc) =
   robs (let '(s2, acc2, r) := rfeed cfg s1 b acc1 in (s2, acc2, rprepend lo1 r)).
 Proof. exact rfeed_split. Qed.
@@ -451,7 +456,7 @@ Proof. exact refute_seg_double_cr. Qed.
 Print Assumptions C03_resp_seg_accept_refuted.
 
 Theorem C03_resp_seg_accept_partial : forall cfg segs s acc lo s' acc' lo',
-  rwf s -> segs <> [] -> rboundaries_clean cfg s segs acc = true ->
+  rwf s -> segs <> [] -> rboundaries_safe cfg s segs acc = true ->
   rrun_segs cfg s segs acc lo = (s', acc', OOk lo') ->
   rrun_segs cfg s [concat segs] acc lo = (s', acc', OOk lo').
 Proof. exact rseg_accept. Qed.
@@ -459,20 +464,46 @@ Print Assumptions C03_resp_seg_accept_partial.
 
 Theorem C03_resp_seg_indep_accept_partial : forall cfg segs1 segs2 s acc lo s1 acc1 lo1 s2 acc2 lo2,
   rwf s -> segs1 <> [] -> segs2 <> [] -> concat segs1 = concat segs2 ->
-  rboundaries_clean cfg s segs1 acc = true -> rboundaries_clean cfg s segs2 acc = true ->
+  rboundaries_safe cfg s segs1 acc = true -> rboundaries_safe cfg s segs2 acc = true ->
   rrun_segs cfg s segs1 acc lo = (s1, acc1, OOk lo1) ->
   rrun_segs cfg s segs2 acc lo = (s2, acc2, OOk lo2) ->
   (s1, acc1, lo1) = (s2, acc2, lo2).
 Proof. exact rseg_indep_accept. Qed.
 Print Assumptions C03_resp_seg_indep_accept_partial.
 
-(* one-read rejection => every segmentation with clean boundaries is rejected *)
+(* one-read rejection => every segmentation with safe boundaries is rejected *)
 Theorem C03_resp_seg_oneshot_reject_partial : forall cfg segs s acc lo s1 acc1 e,
-  rwf s -> segs <> [] -> rboundaries_clean cfg s segs acc = true ->
+  rwf s -> segs <> [] -> rboundaries_safe cfg s segs acc = true ->
   rrun_segs cfg s [concat segs] acc lo = (s1, acc1, OErr e) ->
   forall s2 acc2 r2, rrun_segs cfg s segs acc lo = (s2, acc2, r2) -> forall l, r2 <> OOk l.
 Proof. exact rseg_oneshot_reject. Qed.
 Print Assumptions C03_resp_seg_oneshot_reject_partial.
+
+(* clean boundaries are safe, whatever follows *)
+Theorem C03_resp_clean_is_safe :
+  (forall s y, rclean_st s = true -> rresume_st s y = true) /\
+  (forall cfg segs s a, rboundaries_clean cfg s segs a = true -> rboundaries_safe cfg s segs a = true).
+Proof. exact (conj rclean_resume_st rboundaries_clean_safe). Qed.
+Print Assumptions C03_resp_clean_is_safe.
+
+(* non-vacuity, unclean but safe: "... 3 CRLF abc CR" | "LF 0 CRLF" | "CRLF" - the first boundary is in
+   state (a), the second in state (b); three reads = one read *)
+Example C03_resp_seg_example_unclean_safe :
+  rboundaries_clean rcfg0 rinit [y_a; y_b; y_c] [] = false /\
+  rboundaries_safe rcfg0 rinit [y_a; y_b; y_c] [] = true /\
+  pkind_of (fst (fst (rfeed rcfg0 rinit y_a []))) = Some (RChunked (RDataEnd true), [], []) /\
+  rdigest (rrun_segs rcfg0 rinit [y_a; y_b; y_c] [] []) = (OOk [], [(200, [97; 98; 99], [3], true, None)]) /\
+  rrun_segs rcfg0 rinit [concat [y_a; y_b; y_c]] [] [] = rrun_segs rcfg0 rinit [y_a; y_b; y_c] [] [].
+Proof. exact ex_safe_unclean_reads. Qed.
+Print Assumptions C03_resp_seg_example_unclean_safe.
+
+(* the hypothesis excludes exactly the witnesses of the refutations *)
+Example C03_resp_witnesses_unsafe :
+  rresume_st (fst (fst r1_ab)) w_b = false /\ rresume_st (fst (fst r1_cd)) w_d = false /\
+  rresume_st (fst (fst r1_cd)) w_d2 = false /\
+  rboundaries_safe rcfg0 rinit [w_a; w_b] [] = false /\ rboundaries_safe rcfg0 rinit [w_c; w_d2] [] = false.
+Proof. exact witnesses_unsafe. Qed.
+Print Assumptions C03_resp_witnesses_unsafe.
 
 (* non-vacuity: LF-only head with a folded field, lax chunk-size line " 1a ;x=y" cut inside, 26 data
    bytes, a pipelined 204: three reads with clean boundaries = one read (states included) *)
@@ -489,6 +520,27 @@ Proof. exact ex_clean_three_reads. Qed.
 Print Assumptions C03_resp_seg_example.
 
 (* ------------------------------------------------------------------ R5. reject direction *)
+(* The segmented run - normal or rejected - is observably the one-read run of the bytes it consumed
+   (same exception class, same messages with the same body bytes and marks), provided that at every
+   read boundary the buffered chunk line passes the length re-check and the consumed bytes after it
+   are safe for the boundary state (rboundaries_ok = rtail_ok + rresume_st at each boundary). *)
+Theorem C03_resp_seg_consumed_obs_partial : forall cfg segs s acc lo,
+  rwf s -> segs <> [] -> rboundaries_ok cfg s segs acc = true ->
+  robs (rrun_segs cfg s segs acc lo) =
+  robs (rrun_segs cfg s [concat (rconsumed cfg s segs acc)] acc lo).
+Proof. exact rseg_consumed_obs. Qed.
+Print Assumptions C03_resp_seg_consumed_obs_partial.
+
+Example C03_resp_seg_consumed_example :
+  rboundaries_ok rcfg0 rinit [y_a; y_bad; y_c] [] = true /\
+  rconsumed rcfg0 rinit [y_a; y_bad; y_c] [] = [y_a; y_bad] /\
+  rdigest (rrun_segs rcfg0 rinit [y_a; y_bad; y_c] [] []) =
+    (OErr ETransferEncoding, [(200, [97; 98; 99], [3], false, Some ETransferEncoding)]) /\
+  rdigest (rrun_segs rcfg0 rinit [y_a ++ y_bad] [] []) =
+    (OErr ETransferEncoding, [(200, [97; 98; 99], [3], false, Some ETransferEncoding)]).
+Proof. exact ex_rejected_consumed. Qed.
+Print Assumptions C03_resp_seg_consumed_example.
+
 (* a complete stream accepted in one read, rejected when the read boundary falls right after the
    last-chunk line ("0 CRLF" | "CR X: y CRLF CRLF") *)
 Theorem C03_resp_reject_direction_refuted_cr_after_last_chunk :
